@@ -8,6 +8,8 @@ import Reamber.Lemmas.Sweep
 import Reamber.Lemmas.Snapper
 import Reamber.Lemmas.TimingChain
 import Reamber.Lemmas.TimingOrder
+import Reamber.Lemmas.TimingMono
+import Reamber.Lemmas.TimingRoundTrip
 import Reamber.Spec.Timing
 import Reamber.Generated.Consts
 
@@ -170,6 +172,47 @@ theorem bpmListToTimingMap_perm (rows : List (Rat × Rat × Rat)) :
     (bpmListToTimingMap rows).Perm (rows.map fun r => (⟨r.2.1, r.2.2, r.1⟩ : BcOff)) := by
   unfold bpmListToTimingMap fromBcOff sortBcOff
   exact isort_perm _ _
+
+/-! ### milliseconds → positions → milliseconds -/
+
+/-- **Round trip, exact part.**  Under the hypotheses of `offsets_correct`: for every list of times (any order,
+duplicates) each at or after the first change and with a beat distance from its active change that is a grid
+value (`OnGridAt`), and every sorting permutation numpy may choose in either call, `TimingMap.snaps` succeeds and
+`TimingMap.offsets` applied to its result returns exactly the original times, in the original order. -/
+theorem snaps_offsets_exact (g : Array Rat) (hg : GridOK g) (t0 : Rat) (cs : List BcSnap)
+    (hwf : wfChanges cs = true) (hs : sortedSnaps cs = true) (h0 : firstAtZero cs = true)
+    (hgc : gridCompatible g.toList cs = true) (hm : metronomeOk cs = true)
+    (σ : List Nat) (ts : List Rat) (hσ : SortsAscR σ ts) (hts : ∀ t ∈ ts, OnGridAt g.toList t0 cs t) :
+    ∃ sn, snapsWith g σ (tmOf t0 cs) ts = .ok sn ∧
+      ∀ σ', SortsAsc σ' sn → offsetsWith g σ' (tmOf t0 cs) sn = .ok ts := by
+  have hb := bcsOfBco_rederive hg t0 cs hwf hs h0 hgc hm
+  cases cs with
+  | nil => simp [firstAtZero] at h0
+  | cons c rest =>
+    -- the position each time is sent to
+    let F : Rat → Snap := fun t => ((snapAtAux g t0 c rest t).toOption).getD default
+    have hF : ∀ t ∈ ts, lookupSnap g ((c :: rest).zip (tmOf t0 (c :: rest))).reverse t = .ok (F t) ∧
+        queryOk (c :: rest) (F t) = true ∧ timeAt t0 (c :: rest) (F t) = t := by
+      intro t ht
+      obtain ⟨hT, hgrid⟩ := hts t ht
+      obtain ⟨S, hS, hle, hb0, hback⟩ := timeAtAux_snapAtAux hg t0 c rest t hwf hs hm hT hgrid
+      have hFt : F t = S := by simp [F, hS, Except.toOption]
+      refine ⟨?_, ?_, ?_⟩
+      · simp only [tmOf, List.zip_cons_cons]
+        rw [lookupSnap_eq_snapAtAux g t0 c rest t hwf hs hT, hS, hFt]
+      · rw [hFt]; simp [queryOk, hle, hb0]
+      · rw [hFt]; exact hback
+    refine ⟨ts.map F, snapsWith_order g σ _ ts _ _ F hb hσ (fun t ht => (hF t ht).1), ?_⟩
+    intro σ' hσ'
+    have := offsetsWith_order g σ' (tmOf t0 (c :: rest)) (ts.map F) _ _ (timeAt t0 (c :: rest)) hb hσ'
+      (fun q hq => by
+        obtain ⟨t, ht, rfl⟩ := List.mem_map.mp hq
+        exact lookupOffset_eq_timeAt t0 (c :: rest) (F t) hwf hs (hF t ht).2.1)
+    rw [this, List.map_map]
+    congr 1
+    calc ts.map (timeAt t0 (c :: rest) ∘ F) = ts.map id :=
+          List.map_congr_left (fun t ht => (hF t ht).2.2)
+      _ = ts := List.map_id ts
 
 /-! non-vacuity: concrete instances of the hypotheses -/
 
